@@ -431,6 +431,17 @@ def deck():
                     continue
                 cell("clone/%s/children=%s/keep=%s" % (on, children, keep), ["clone", obj, children, keep],
                      ["append", B, 14] if on != "doc" else ["append", 14, X])
+    # an object is handed to a container that does not hold it but holds a deep-equal twin of it (a copy):
+    # the twin is another object
+    for keep in (True, False):
+        # (followed by a rename to a sibling's name, which is refused as long as the object knows its parent)
+        cell("remove/twin-of-child/sec", ["clone", A, True, keep], ["remove", len(BASE), C], ["rename", C, enc("b")])
+        cell("remove/twin-of-child/prop", ["prop", "k", enc([1]), "int", A, {}], ["clone", A, True, keep],
+             ["remove", len(BASE) + 1, P], ["rename", P, enc("k")])
+        cell("remove/twin-of-child/doc", ["clone", D, True, keep], ["remove", len(BASE), A], ["rename", A, enc("b")])
+        cell("remove/twin-of-child/original-from-copy", ["clone", A, True, keep], ["append", D2, len(BASE)], ["remove", A, len(BASE) + 0])
+        cell("setitem/twin-of-child/sec", ["clone", A, True, keep], ["setitem", len(BASE), "sections", {"$obj": C}, X])
+        cell("setitem/twin-of-child/prop", ["clone", A, True, keep], ["setitem", len(BASE), "properties", {"$obj": P}, Q])
     cell("clone/sec/attach-to-own-parent", ["clone", C, True, False], ["append", A, 14])
     cell("clone/sec/attach-into-original", ["clone", A, True, False], ["append", A, 14])
     for strict in (True, False):
